@@ -323,7 +323,8 @@ def check_success_criterion(F, run, name, b):
     oks = []
     for n in walk(b["body"], into_closures=False):
         if n.get("k") == "Call" and (callee(n) or "").endswith("Ok") and "prelude" in (callee(n) or "") or (n.get("k") == "Call" and callee(n) == "std::prelude::v1::Ok"):
-            oks.append(n)
+            if cfg.in_return_position(b["body"], pm, n):       # (an `Ok(())` that is the value of a validation block under `?` is not a result)
+                oks.append(n)
     run.floor("R7.3", dp, "Ok returns", len(oks), 1, F.loc(b))
     abscissae = [values[nm] for nm in binds if nm not in fv and isinstance(values[nm], sp.Symbol) and nm not in ("tol", "n", "n_max", "j", "k_1", "k_2", "n_0", "half", "two", "three", "four", "mflag", "n_half", "f")]
     x = sp.Symbol("x_common", real=True, nonzero=True)
